@@ -469,7 +469,10 @@ def pytest_sessionfinish(session, exitstatus):
                 cr = ChangeRecorder()
                 apply_all(used_changes, cr)
                 cr.virtual_write()
-                apply_all(changes[flag], cr)
+                # The changes of both steps can belong to the same list/dict/call.
+                # They have to be applied together to get one merged edit per container.
+                cr.clear_replacements()
+                apply_all(used_changes + changes[flag], cr)
 
                 any_changes = False
 
